@@ -125,6 +125,10 @@ def ann_holds_set(a):
     return False
 
 
+STR_PASS = {'split', 'rsplit', 'splitlines', 'strip', 'lstrip', 'rstrip', 'lower', 'upper', 'casefold', 'title', 'replace',
+            'encode', 'decode', 'expandtabs', 'partition', 'rpartition', 'removeprefix', 'removesuffix', 'center', 'ljust', 'rjust'}
+
+
 class Sink:
     __slots__ = ('kind', 'func', 'node', 'what', 'roots', 'detail')
 
@@ -438,6 +442,12 @@ class FuncState:
                 return join(*[v for v in vs if v is not None])
             if f.attr in ('copy',) and rv.kind in TAINTED:
                 return rv
+            if f.attr in STR_PASS and rv.kind in ORDS:
+                # text built in a seed-dependent order stays seed-ordered through str methods (split() gives its parts back)
+                return V(ORDSEQ, rv.roots)
+            if f.attr == 'warn' and norm(f.value) == 'warnings' and argv and (first.kind in ORDS or first.kind == SET):
+                self.sink('output', e, 'seed-ordered text emitted as a warning', self.observe(first, e, 'warning text'))
+                return VCLEAN
             if f.attr in ('format',):
                 vs = [self.observe(v, e, 'text formatting of a set') for v in allv if v.kind == SET or v.kind in TAINTED]
                 return join(*vs) if vs else VCLEAN
